@@ -33,6 +33,7 @@ type SolverStats struct {
 	Unknown   int
 	Errors    int
 	Rescued   int // unknown on the primary solver, decided by the fallback
+	Hung      int // queries after which the solver process had to be killed
 	SolveTime time.Duration
 }
 
@@ -47,6 +48,7 @@ type Solver struct {
 	timeout  int // ms per query
 	Log      io.Writer
 	dead     bool
+	lines    chan string
 	Fallback *Solver // unused
 	// OneShot lists solver kinds tried, each in a fresh non-incremental
 	// process, when the incremental solver answers unknown (portfolio).
@@ -84,6 +86,17 @@ func NewSolver(kind string, timeoutMs int) (*Solver, error) {
 		return nil, err
 	}
 	s := &Solver{Kind: kind, cmd: cmd, in: in, out: bufio.NewReaderSize(outp, 1<<16), declared: map[string]Sort{}, timeout: timeoutMs}
+	s.lines = make(chan string, 256)
+	go func(r *bufio.Reader, ch chan string) {
+		for {
+			l, err := r.ReadString('\n')
+			if err != nil {
+				close(ch)
+				return
+			}
+			ch <- l
+		}
+	}(s.out, s.lines)
 	s.send("(set-option :global-declarations true)")
 	if kind != "cvc5" {
 		s.send("(set-option :produce-models true)")
@@ -115,28 +128,58 @@ func (s *Solver) send(text string) {
 	}
 }
 
-// roundtrip sends an echo marker and returns all output lines before it.
+// roundtrip sends an echo marker and returns all output lines before it. A
+// solver that does not answer within its time limit (plus a grace period) is
+// killed and replaced: the query counts as unknown.
 func (s *Solver) roundtrip() []string {
 	s.send(`(echo "#gsx-done")`)
 	var lines []string
+	deadline := time.NewTimer(time.Duration(s.timeout)*time.Millisecond + 4*time.Second)
+	defer deadline.Stop()
 	for {
-		l, err := s.out.ReadString('\n')
-		if err != nil {
-			s.dead = true
-			lines = append(lines, "(error \"solver died: "+err.Error()+"\")")
-			return lines
-		}
-		l = strings.TrimSpace(l)
-		if l == "#gsx-done" || l == `"#gsx-done"` {
-			return lines
-		}
-		if l != "" {
-			if s.Log != nil {
-				fmt.Fprintln(s.Log, "; <- "+l)
+		select {
+		case l, ok := <-s.lines:
+			if !ok {
+				s.dead = true
+				lines = append(lines, "(error \"solver died\")")
+				s.restart()
+				return lines
 			}
-			lines = append(lines, l)
+			l = strings.TrimSpace(l)
+			if l == "#gsx-done" || l == `"#gsx-done"` {
+				return lines
+			}
+			if l != "" {
+				if s.Log != nil {
+					fmt.Fprintln(s.Log, "; <- "+l)
+				}
+				lines = append(lines, l)
+			}
+		case <-deadline.C:
+			s.Stats.Hung++
+			lines = append(lines, "(error \"solver exceeded its time limit and was killed\")")
+			s.restart()
+			return lines
 		}
 	}
+}
+
+// restart replaces the child process by a fresh one (empty assertion stack).
+func (s *Solver) restart() {
+	if s.cmd != nil && s.cmd.Process != nil {
+		s.in.Close()
+		s.cmd.Process.Kill()
+		go s.cmd.Wait()
+	}
+	ns, err := NewSolver(s.Kind, s.timeout)
+	if err != nil {
+		s.dead = true
+		return
+	}
+	s.cmd, s.in, s.out, s.lines = ns.cmd, ns.in, ns.out, ns.lines
+	s.stack = nil
+	s.declared = map[string]Sort{}
+	s.dead = false
 }
 
 func (s *Solver) Close() {
